@@ -34,10 +34,12 @@ def static_clauses(case, o):
     static output can attach it to any port; a delete_node / delete_link mutation can unwire a static input.
     Neither makes the document wrong, so the clause is switched off for that HUGR."""
     muts = o.get("muts") or []
-    deleted = any(m[0] in ("delete_node", "delete_link") for m in muts)
+    # an insert_hugr mutation carries the raw history of the inserted HUGR
+    inner = [x for m in muts if m[0] == "insert" for x in m[2]]
+    deleted = any(m[0] in ("delete_node", "delete_link") for m in muts + inner)
     kind = {n["idx"]: n["kind"] for n in o.get("a", {}).get("nodes", [])}
     raw_static = any(m[0] == "add_link" and m[2] == 0 and (deleted or kind.get(m[1]) in STATIC_SOURCES + (None,))
-                     for m in muts)
+                     for m in muts) or any(m[0] == "add_link" and m[2] == 0 for m in inner)
     return (not raw_static, not raw_static and not deleted)
 
 
@@ -56,6 +58,11 @@ def rowpoly_program(row):
              {"k": "call", "func": "rowpoly0", "args": ins, "inst": ["fn", list(row), list(row)],
               "targs": [["seq", [["type", t] for t in row]]], "id": 1, "outs": outs}],
              "outs": outs, "out_tys": list(row), "defs": []}}]}
+
+
+# the raw history of a small HUGR to insert (Bool -> Bool identity: Input, Output, one link)
+INSERTED = (["add_node", ["input", ["B"]], 0, None, None], ["add_node", ["output", ["B"]], 0, None, None],
+            ["add_link", 1, 0, 2, 0])
 
 
 class C03(RT):
@@ -104,13 +111,19 @@ class C03(RT):
             P([]), P(["B", "I"]), P(["B", "B", "I"]), P(["I"]),
             # the same with an order edge into the call (order port = value inputs + the static port)
             P(["B", "I"], [["add_order", 3, 5]]),
+            # seeded C03-e: insert_hugr with the parent omitted inserts below the root (not as a second root that the
+            # document lists as its own parent); once, and twice in a row after other nodes
+            {"kind": "hist", "root": ["module"], "muts": [["insert", ["dfg", ["B"], ["B"]], list(INSERTED), None]]},
+            {"kind": "hist", "root": ["dfg", ["B"], ["B"]], "muts": [
+                ["add_node", ["input", ["B"]], 0, None, None], ["add_node", ["output", ["B"]], 0, None, None],
+                ["insert", ["dfg", ["B"], ["B"]], list(INSERTED), None], ["insert", ["dfg", [], []], [], None],
+                ["add_link", 1, 0, 3, 0], ["add_link", 3, 0, 2, 0]]},
         ]
 
-    def build(self, case):
+    def program(self, case):
         if "program" in case:
-            h = progs.run(case["program"]).hugr
-            return h, [m for m in case.get("muts", []) if c02.apply_mut(h, m)]
-        return super().build(case)
+            return progs.run(case["program"]).hugr
+        return super().program(case)
 
     # -- observation: the C02 observation plus every text handed to the schema server
     def observe(self, case, ctx):
@@ -154,7 +167,7 @@ class C03(RT):
                 st["documents"] += 1
                 st["bytes"] += len(text)
             rts = []
-            if "skip" not in obs and case["kind"] == "hugr" and "a" in obs:
+            if "skip" not in obs and case["kind"] in ("hugr", "hist") and "a" in obs:
                 rts = [obs]
             elif case["kind"] == "pkg" and "mods" in obs:
                 rts = obs["mods"]
@@ -167,7 +180,7 @@ class C03(RT):
                         mds.setdefault(L.md(json.dumps(n["md"], sort_keys=True)), dag.members(n["md"]))
             ties, pkg = [], None
             flags = [static_clauses(case, o) for o in rts]
-            if case["kind"] == "hugr" and rts:
+            if case["kind"] in ("hugr", "hist") and rts:
                 j = next((t for d, t, _ in obs["schema_docs"] if d == "SerialHugr"), None)
                 if j is not None and j in parsed and "doc" in obs:
                     ties.append((parsed[j].get("encoder"), dag.add(parsed[j])))
@@ -211,7 +224,7 @@ class C03(RT):
     def _rts(case, obs):
         if "skip" in obs:
             return []
-        if case["kind"] == "hugr":
+        if case["kind"] in ("hugr", "hist"):
             return [obs] if "a" in obs else []
         if case["kind"] == "pkg":
             return obs.get("mods", [])
